@@ -381,6 +381,13 @@ func (s *sysState) audit() string {
 			return fail("l3/audit/victim-name-asked-at-attacker", "%s", n)
 		}
 	}
+	// 1a. authority selection: the attacker's servers are only ever asked about names at or below his own zones
+	// (whatever the cache holds, however a name is spelled)
+	for _, n := range s.front.Names() {
+		if !inAttackerZone(n) {
+			return fail("l3/audit/name-outside-his-zones-asked-at-attacker", "%s", n)
+		}
+	}
 	// 1b. no address from a record owned by a victim name became a name-server address
 	for h := range s.nsHosts {
 		v4, v6 := resolver.VerifC07GlueCached(s.p.Resolver, h)
@@ -781,6 +788,14 @@ func (s *sysState) attack(shape string, k int) (string, string) {
 			}
 			return m
 		}
+	case "escdot-steal", "escdot-steal-deep":
+		// a name of the PARENT zone whose first label contains an escaped dot and whose text after that dot spells
+		// the attacker's zone (one label `foo.evil` under test.), asked while the attacker's delegation is cached
+		trigger = "foo\\." + evilZone
+		if shape == "escdot-steal-deep" {
+			trigger = "a.b\\." + evilZone
+		}
+		preStep = func() { s.clientQuery("a."+evilZone, dns.TypeA) }
 	case "cname-honest":
 		script(func(m *dns.Msg) { m.Answer = []dns.RR{rrCNAME(qn, "www.victim.test.")} })
 	// ---- the relay shapes again, dressed as signed data: an RRSIG (signer evil.test., arbitrary
@@ -1255,6 +1270,7 @@ func (s *sysState) attack(shape string, k int) (string, string) {
 var allShapes = []string{
 	"extra-a", "extra-ns-glue", "auth-ns", "auth-a", "ans-a", "ans-foreign-only", "ans-ns", "ans-dname",
 	"cname-forged", "cname-forged-ghost", "cname-forged-txt", "cname-honest", "dname-honest", "cname-inzone",
+	"escdot-steal", "escdot-steal-deep",
 	"dname-forged", "dname-forged-nocname", "dname-forged-txt", "dname-forged-last", "dname-forged.nxsoa",
 	"nx-soa-victim", "nodata-extra",
 	"ref-self", "ref-up", "ref-root", "ref-side", "ref-mixed", "ref-class", "ref-offpath",
